@@ -386,3 +386,31 @@ func TestPropAggCache(t *testing.T) {
 		rec.Case(f.String()+" "+strings.Join(hist, ","), evictions > 0 && hits > 0 && len(wantCount) > 0, fmt.Sprintf("evictions>0=%v", evictions > 0), fmt.Sprintf("hits>0=%v", hits > 0))
 	})
 }
+
+// ---- native fuzz target (thorough tier): (regex, notRegex, prefix, name) as raw strings -------------------------
+
+func FuzzMatcher(f *testing.F) {
+	f.Add("^ab?c", "", "", "ac")
+	f.Add("^foo|bar", "", "", "bar")
+	f.Add(`^a\.*b`, "", "", "ab")
+	f.Add("", "^foo?$|^x", "fo", "fo")
+	f.Add(`^foo.*|bar`, "", "", "bar")
+	f.Add(`(?i)^FOO`, `\d$`, "f", "foo1")
+	f.Fuzz(func(t *testing.T, re, notRe, prefix, name string) {
+		if len(re) > 60 || len(notRe) > 60 || len(name) > 80 || len(name) == 0 {
+			t.Skip()
+		}
+		fl := gen.Filter{Prefix: prefix, Regex: re, NotRegex: notRe}
+		m, err := fl.Matcher()
+		if err != nil {
+			t.Skip() // not a valid RE2 pattern
+		}
+		want := fl.Ref().Match(name)
+		if got := m.Match([]byte(name)); got != want {
+			t.Fatalf("matcher.Match disagrees with the documented conjunction: filter=%s name=%q got=%v want=%v", fl, name, got, want)
+		}
+		if want && !m.PreMatch([]byte(name)) {
+			t.Fatalf("PreMatch discards a name the filter accepts: filter=%s name=%q", fl, name)
+		}
+	})
+}
